@@ -6,6 +6,7 @@ import threading
 import time
 from concurrent.futures import ThreadPoolExecutor
 from vlib import core
+from checks import _tmpl_streams as T
 
 META = {
     "property_id": "C01",
@@ -1235,6 +1236,7 @@ def run(ctx):
     ht.start()
     for name in ("wellformed", "malformed", "wellformed-wide", "malformed-wide"):
         streams.append((name, to_lines("tplrender", gen[name]), True))
+    streams.append(("tail-echo", to_lines("tplrender", T.c01_tail_echo(ctx)), True))   # unresolved {var:n&me} ending the buffer (round c)
     streams.append(("tagtree", to_lines("tpltags", gen["tagtree"]), True))
     streams.append(("g3", to_lines("tplrender", gen["g3"]), False))
     # the cache entry point (C17 uses the verdict; here only faults count)
@@ -1280,5 +1282,5 @@ def run(ctx):
 
 
 FINISH = dict(level="proof",
-              rule="grammar-generated templates (all seven tag kinds, nesting <= 3, both quote kinds and attribute orders) x value trees of all kinds; malformed: truncation at sampled (quick) / every (thorough) offset, delete/duplicate/swap/replace one delimiter, splices, fragment soup, bracket/index edge names, nesting 9..17 (..300 thorough), names of 254..768 units, attribute padding 240..600 and >= 65536; every line in width 1, every 5th (quick) / all (thorough) in widths 2, 4, wchar_t with units beyond 8 bits; tag trees compared textually; non-trivial = the template contains '{' or '<'",
+              rule="grammar-generated templates (all seven tag kinds, nesting <= 3, both quote kinds and attribute orders) x value trees of all kinds; malformed: truncation at sampled (quick) / every (thorough) offset, delete/duplicate/swap/replace one delimiter, splices, fragment soup, bracket/index edge names, nesting 9..17 (..300 thorough), names of 254..768 units, attribute padding 240..600 and >= 65536; every line in width 1, every 5th (quick) / all (thorough) in widths 2, 4, wchar_t with units beyond 8 bits; tail-echo: unresolved {var:NAME} with & / partial entities in NAME ending the exact-size buffer, four widths; tag trees compared textually; non-trivial = the template contains '{' or '<'",
               checker_cmd="cd lean && lake build Qentem.Props.C01 && lake env lean <#print axioms of the listed theorems>")
